@@ -1304,6 +1304,42 @@ let props_valid_for ps c =
     | Some p -> is_valid_for p c
     | None -> false) (props_iter ps)
 
+(** val first_data : pkind -> prop option list -> bytes option **)
+
+let rec first_data k = function
+| [] -> None
+| o :: t ->
+  (match o with
+   | Some p ->
+     if N.eqb (kind_id p.pk) (kind_id k) then Some p.pdata else first_data k t
+   | None -> first_data k t)
+
+(** val response_topic : properties -> bytes option **)
+
+let response_topic ps =
+  first_data KResponseTopic (props_iter ps)
+
+(** val correlation_data : properties -> bytes option **)
+
+let correlation_data ps =
+  first_data KCorrelationData (props_iter ps)
+
+(** val with_properties : properties -> prop list -> properties **)
+
+let with_properties self l =
+  match self with
+  | PWithCorr (c, _) -> PWithCorr (c, l)
+  | _ -> PSlice l
+
+(** val with_correlation : properties -> bytes -> properties **)
+
+let with_correlation self d =
+  let c = mkprop KCorrelationData N0 d [] in
+  (match self with
+   | PSlice l -> PWithCorr (c, l)
+   | PEncoded _ -> PWithCorr (c, [])
+   | PWithCorr (_, l) -> PWithCorr (c, l))
+
 type serr =
 | EMem
 | ECustom
@@ -6421,6 +6457,46 @@ let p_case =
       p_bind (p_list p_ev) (fun sc ->
         p_ret { c_cfg = cfg; c_prog = prog; c_script = sc })))
 
+type reply_pub = { rp_topic : bytes; rp_props : properties }
+
+(** val reply : properties -> reply_pub option **)
+
+let reply inbound =
+  match response_topic inbound with
+  | Some t ->
+    Some { rp_topic = t; rp_props =
+      (match correlation_data inbound with
+       | Some c -> with_correlation (PSlice []) c
+       | None -> PSlice []) }
+  | None -> None
+
+(** val reply_with : properties -> prop list -> reply_pub option **)
+
+let reply_with inbound user =
+  match reply inbound with
+  | Some r ->
+    Some { rp_topic = r.rp_topic; rp_props =
+      (with_properties r.rp_props user) }
+  | None -> None
+
+type owned =
+| OwnNone
+| OwnErr
+| OwnOk of bytes * bytes option
+
+(** val reply_owned : properties -> n -> n -> owned **)
+
+let reply_owned inbound t c =
+  match response_topic inbound with
+  | Some t0 ->
+    if N.ltb t (lenN t0)
+    then OwnErr
+    else (match correlation_data inbound with
+          | Some c0 ->
+            if N.ltb c (lenN c0) then OwnErr else OwnOk (t0, (Some c0))
+          | None -> OwnOk (t0, None))
+  | None -> OwnNone
+
 (** val run_p : 'a1 parser0 -> ('a1 -> text) -> n list -> text **)
 
 let run_p p f l =
@@ -6465,6 +6541,168 @@ let run_p p f l =
       false, false, true, true, true, false)), (String ((Ascii (true, false,
       true, false, false, true, true, false)),
       EmptyString))))))))))))))))))))))))))
+
+(** val owned_caps : n -> n * n **)
+
+let owned_caps sel =
+  if N.eqb sel N0
+  then (N0, N0)
+  else if N.eqb sel (Npos XH)
+       then ((Npos XH), (Npos XH))
+       else if N.eqb sel (Npos (XO XH))
+            then ((Npos (XO (XO XH))), (Npos (XO (XO XH))))
+            else if N.eqb sel (Npos (XI XH))
+                 then ((Npos (XO (XO (XO XH)))), (Npos (XO XH)))
+                 else if N.eqb sel (Npos (XO (XO XH)))
+                      then ((Npos (XO XH)), (Npos (XO (XO (XO XH)))))
+                      else if N.eqb sel (Npos (XI (XO XH)))
+                           then ((Npos (XO (XO (XO (XO XH))))), (Npos (XO (XO
+                                  (XO (XO XH))))))
+                           else if N.eqb sel (Npos (XO (XI XH)))
+                                then ((Npos (XO (XO (XO (XO (XO (XO
+                                       XH))))))), (Npos (XO (XO (XO (XO (XO
+                                       (XO XH))))))))
+                                else ((Npos (XO (XO (XO (XO (XO (XO (XO
+                                       XH)))))))), (Npos (XO (XO (XO (XO (XO
+                                       (XO (XO XH)))))))))
+
+(** val show_reply : bytes -> prop list -> n -> text **)
+
+let show_reply buf user sel =
+  match from_buffer buf with
+  | Some r ->
+    (match r with
+     | RPublish (_, _, _, _, _, ps, _) ->
+       let inbound = PEncoded ps in
+       app
+         (s2t (String ((Ascii (false, true, false, false, true, true, true,
+           false)), (String ((Ascii (false, false, true, false, true, true,
+           true, false)), (String ((Ascii (true, false, true, true, true,
+           true, false, false)), EmptyString)))))))
+         (app
+           (match response_topic inbound with
+            | Some t ->
+              app
+                (s2t (String ((Ascii (false, false, false, true, true, true,
+                  true, false)), EmptyString))) (hex t)
+            | None ->
+              s2t (String ((Ascii (true, false, true, true, false, true,
+                false, false)), EmptyString)))
+           (app
+             (s2t (String ((Ascii (false, false, false, false, false, true,
+               false, false)), (String ((Ascii (true, true, false, false,
+               false, true, true, false)), (String ((Ascii (false, false,
+               true, false, false, true, true, false)), (String ((Ascii
+               (true, false, true, true, true, true, false, false)),
+               EmptyString)))))))))
+             (app
+               (match correlation_data inbound with
+                | Some c ->
+                  app
+                    (s2t (String ((Ascii (false, false, false, true, true,
+                      true, true, false)), EmptyString))) (hex c)
+                | None ->
+                  s2t (String ((Ascii (true, false, true, true, false, true,
+                    false, false)), EmptyString)))
+               (app
+                 (s2t (String ((Ascii (false, false, false, false, false,
+                   true, false, false)), (String ((Ascii (false, true, false,
+                   false, true, true, true, false)), (String ((Ascii (true,
+                   false, true, false, false, true, true, false)), (String
+                   ((Ascii (false, false, false, false, true, true, true,
+                   false)), (String ((Ascii (false, false, true, true, false,
+                   true, true, false)), (String ((Ascii (true, false, false,
+                   true, true, true, true, false)), (String ((Ascii (true,
+                   false, true, true, true, true, false, false)),
+                   EmptyString)))))))))))))))
+                 (app
+                   (match reply_with inbound user with
+                    | Some r0 ->
+                      show_sres
+                        (enc_publish (Npos (XO (XO (XO (XO (XO (XO (XO (XO
+                          (XO (XO (XO (XO XH))))))))))))) { pq_topic =
+                          r0.rp_topic; pq_pid = None; pq_props = r0.rp_props;
+                          pq_retain = false; pq_qos = Q0; pq_dup = false;
+                          pq_payload = ((Npos (XO (XI (XO (XO (XI (XI
+                          XH))))))) :: []) })
+                    | None ->
+                      s2t (String ((Ascii (false, true, true, true, false,
+                        true, true, false)), (String ((Ascii (true, true,
+                        true, true, false, true, true, false)), (String
+                        ((Ascii (false, true, true, true, false, true, true,
+                        false)), (String ((Ascii (true, false, true, false,
+                        false, true, true, false)), EmptyString)))))))))
+                   (app
+                     (s2t (String ((Ascii (false, false, false, false, false,
+                       true, false, false)), (String ((Ascii (true, true,
+                       true, true, false, true, true, false)), (String
+                       ((Ascii (true, true, true, false, true, true, true,
+                       false)), (String ((Ascii (false, true, true, true,
+                       false, true, true, false)), (String ((Ascii (true,
+                       false, true, false, false, true, true, false)),
+                       (String ((Ascii (false, false, true, false, false,
+                       true, true, false)), (String ((Ascii (true, false,
+                       true, true, true, true, false, false)),
+                       EmptyString)))))))))))))))
+                     (let (t, c) = owned_caps sel in
+                      (match reply_owned inbound t c with
+                       | OwnNone ->
+                         s2t (String ((Ascii (false, true, true, true, false,
+                           true, true, false)), (String ((Ascii (true, true,
+                           true, true, false, true, true, false)), (String
+                           ((Ascii (false, true, true, true, false, true,
+                           true, false)), (String ((Ascii (true, false, true,
+                           false, false, true, true, false)),
+                           EmptyString))))))))
+                       | OwnErr ->
+                         s2t (String ((Ascii (true, false, true, false,
+                           false, false, true, false)), (String ((Ascii
+                           (false, true, false, false, true, false, true,
+                           false)), (String ((Ascii (false, true, false,
+                           false, true, false, true, false)),
+                           EmptyString))))))
+                       | OwnOk (t0, c0) ->
+                         app
+                           (s2t (String ((Ascii (false, false, true, false,
+                             true, true, true, false)), (String ((Ascii
+                             (true, false, true, true, true, true, false,
+                             false)), (String ((Ascii (false, false, false,
+                             true, true, true, true, false)),
+                             EmptyString)))))))
+                           (app (hex t0)
+                             (app
+                               (s2t (String ((Ascii (false, false, false,
+                                 false, false, true, false, false)), (String
+                                 ((Ascii (true, true, false, false, false,
+                                 true, true, false)), (String ((Ascii (true,
+                                 false, true, true, true, true, false,
+                                 false)), EmptyString)))))))
+                               (match c0 with
+                                | Some c1 ->
+                                  app
+                                    (s2t (String ((Ascii (false, false,
+                                      false, true, true, true, true, false)),
+                                      EmptyString))) (hex c1)
+                                | None ->
+                                  s2t (String ((Ascii (true, false, true,
+                                    true, false, true, false, false)),
+                                    EmptyString)))))))))))))
+     | _ ->
+       s2t (String ((Ascii (false, true, true, true, false, false, true,
+         false)), (String ((Ascii (true, true, true, true, false, false,
+         true, false)), (String ((Ascii (false, false, true, false, true,
+         false, true, false)), (String ((Ascii (false, false, false, false,
+         true, false, true, false)), (String ((Ascii (true, false, true,
+         false, true, false, true, false)), (String ((Ascii (false, true,
+         false, false, false, false, true, false)), EmptyString)))))))))))))
+  | None ->
+    s2t (String ((Ascii (false, true, true, true, false, false, true,
+      false)), (String ((Ascii (true, true, true, true, false, false, true,
+      false)), (String ((Ascii (false, false, true, false, true, false, true,
+      false)), (String ((Ascii (false, false, false, false, true, false,
+      true, false)), (String ((Ascii (true, false, true, false, true, false,
+      true, false)), (String ((Ascii (false, true, false, false, false,
+      false, true, false)), EmptyString))))))))))))
 
 (** val exec_codec : n -> n list -> text option **)
 
@@ -6554,7 +6792,28 @@ let exec_codec cmd l =
                                                then Some
                                                       (run_p p_case show_run
                                                         l)
-                                               else None
+                                               else if N.eqb cmd (Npos (XI
+                                                         (XI (XO XH))))
+                                                    then Some
+                                                           (run_p
+                                                             (p_bind p_bytes
+                                                               (fun b ->
+                                                               p_bind
+                                                                 (p_list
+                                                                   p_prop)
+                                                                 (fun u ->
+                                                                 p_bind p_N
+                                                                   (fun sel ->
+                                                                   p_ret ((b,
+                                                                    u), sel)))))
+                                                             (fun pat ->
+                                                             let (p, sel) =
+                                                               pat
+                                                             in
+                                                             let (b, u) = p in
+                                                             show_reply b u
+                                                               sel) l)
+                                                    else None
 
 (** val exec : n list -> text **)
 
